@@ -58,7 +58,9 @@ Ledger(e) ==
 ChannelSetClauses(t, k) ==
     LET e == t.ev[k]
     IN  (IF \E j \in 1..(N(e) - 1) : e.f[j] >= e.f[j + 1] THEN {"InFrequencyOrder"} ELSE {})
-   \cup (CASE e.cls = "Launch" -> IF Chans(e) = LaunchOutcome(Req(t)).spec THEN {} ELSE {"LaunchIsSortedRequest"}
+        \* launch = the request sorted by frequency (order is judged by InFrequencyOrder), every attribute attached;
+        \* stated without the recursive Sorted(): spectra of 150+ channels would exhaust TLC's evaluation stack
+   \cup (CASE e.cls = "Launch" -> IF N(e) = Len(t.req) /\ SeqSet(Chans(e)) = SeqSet(Req(t)) THEN {} ELSE {"LaunchIsSortedRequest"}
           [] e.cls = "Filter" -> IF Chans(e) = SelectSeq(Chans(t.ev[1]), LAMBDA c : InCommon(c, t)) THEN {}
                                  ELSE {"FilterKeepsExactlyCommon"}
           [] e.d = 0          -> IF Chans(e) = Chans(t.ev[2]) THEN {} ELSE {"Survives"}
